@@ -26,7 +26,13 @@ struct I1 : FSM::State { ALL_CALLBACKS };
 struct I2 : FSM::State { ALL_CALLBACKS };
 struct I3 : FSM::State { ALL_CALLBACKS };
 
-struct Top : FSM::StateT<I1, I2> { ALL_CALLBACKS };
+#ifdef FFSM2_ENABLE_PLANS
+	#define PLAN_CALLBACKS void planSucceeded(FullControl&) {} void planFailed(FullControl&) {}
+#else
+	#define PLAN_CALLBACKS
+#endif
+
+struct Top : FSM::StateT<I1, I2> { ALL_CALLBACKS PLAN_CALLBACKS };	// a head with >= 2 injections must define the plan callbacks itself (ambiguous otherwise)
 struct K0  : FSM::State          { ALL_CALLBACKS };
 struct K1  : FSM::StateT<I1>     { ALL_CALLBACKS };
 struct K2  : FSM::StateT<I1, I2> { ALL_CALLBACKS };
